@@ -60,7 +60,8 @@ SCHEMA_FNS = [SP + n for n in ('basic_key', 'identifier', 'get_required', 'get_o
                                'get_key_info', 'get_sectiontype', 'start_key', 'end_key', 'start_multikey',
                                'start_section', 'end_section', 'start_multisection', 'end_multisection',
                                'start_abstracttype', 'end_abstracttype', 'start_sectiontype', 'end_sectiontype',
-                               'push_prefix', 'pop_prefix', 'get_classname', 'loadComponent')] + ['schema.SchemaParser.extendSchema']
+                               'push_prefix', 'pop_prefix', 'get_classname', 'loadComponent', 'end_multikey',
+                               'characters_default')] + ['schema.SchemaParser.extendSchema']
 
 PROPS = {
     'C01': {'functions': INFO_MATCH + MATCHER + LOADER_CFG, 'standin': True},
